@@ -102,7 +102,8 @@ func (d *dec) val(t *wg.Ty) *wg.Val {
 		switch t.S {
 		case "b":
 			return &wg.Val{K: wg.VBool, B: d.take(1)[0] != 0}
-		case "s":
+		case "s", "r":
+			// r: raw data inside a dynamic value (length, bytes)
 			return &wg.Val{K: wg.VStr, S: append([]byte(nil), d.take(int(d.u32()))...)}
 		case "v":
 			return &wg.Val{K: wg.VTup}
@@ -175,7 +176,7 @@ func Fill(dst reflect.Value, v *wg.Val) {
 	switch dst.Kind() {
 	case reflect.Interface:
 		if v.K == wg.VDyn && dst.Type() == valueType {
-			dst.Set(reflect.ValueOf(value.Opaque(v.T.Sig(), v.V.Enc())))
+			dst.Set(reflect.ValueOf(mkValue(v)))
 		}
 	case reflect.Bool:
 		dst.SetBool(v.B)
